@@ -53,6 +53,9 @@ pub struct Ghost {
     pub approved_msat: BTreeMap<u8, u64>,
     pub chans: BTreeMap<u64, ChanLedger>,
     pub seen: BTreeSet<u8>,
+    /// the approval request was presented a second time (the approved amount stays what it was)
+    #[serde(default)]
+    pub reapproved: bool,
 }
 
 pub struct PState {
@@ -261,7 +264,7 @@ impl Model for PayModel {
             return vec![];
         }
         let mut v = vec![];
-        if s.ghost.approved_msat.is_empty() {
+        if s.ghost.approved_msat.is_empty() || !s.ghost.reapproved {
             v.push(Op::Approve);
         }
         if self.holder_letters {
@@ -322,7 +325,10 @@ impl Model for PayModel {
                 let payee = PublicKey::from_secret_key(&secp(), &sk(201));
                 let r = call(move || node.add_keysend(payee, pay_hash(1), A_SAT * 1000).map_err(|e| status_kind(&e)));
                 tag = r.tag();
-                if let Outcome::Ok(true) = r {
+                if !s.ghost.approved_msat.is_empty() {
+                    // the same keysend again: whatever the answer, one payment was approved once
+                    s.ghost.reapproved = true;
+                } else if let Outcome::Ok(true) = r {
                     s.ghost.approved_msat.insert(1, A_SAT * 1000);
                 }
             }
@@ -440,8 +446,13 @@ pub fn explore(tier: Tier, monitors: bool, wall_s: f64) -> PayRun {
     let mut stats = BfsStats { closed: true, ..Default::default() };
     let mut found = vec![];
     let mut models = vec![];
-    let per = wall_s / models_cfg.len() as f64;
-    for m in models_cfg {
+    // small configurations first; what they do not use is available to the later ones
+    let mut models_cfg = models_cfg;
+    models_cfg.reverse();
+    let t0 = std::time::Instant::now();
+    let n = models_cfg.len();
+    for (i, m) in models_cfg.into_iter().enumerate() {
+        let per = (wall_s - t0.elapsed().as_secs_f64()).max(1.0) / (n - i) as f64;
         let lim = Limits { max_depth: m.max_ops, max_states: 3_000_000, wall_s: per };
         let st = bfs(&m, &lim, &mut found);
         models.push(format!("{}: states={} transitions={} closed={} bounded_complete={} depth={} t={:.1}s", m.name(), st.states, st.transitions, st.closed, st.bounded_complete, st.max_depth, st.wall_s));
